@@ -73,7 +73,7 @@ def _plan(ctx, rd):
     else:
         for tc in ALL_TYPES:
             runs.append(("gen_1col_t%d" % (tc - 1), _gen_cfg(rd, "g1_%d.cfg" % tc, [21, 31, 41, 51], [0, 1, 2, 3], [tc], 1, 0, 1, 0)))
-            runs.append(("gen_2col_t%d" % (tc - 1), _gen_cfg(rd, "g2_%d.cfg" % tc, [22, 32], [0, 1, 2, 3], [tc], 1, 0, 32, s % 32)))
+            runs.append(("gen_2col_t%d" % (tc - 1), _gen_cfg(rd, "g2_%d.cfg" % tc, [22, 32], [0, 1, 2, 3], [tc], 1, 0, 8, s % 8)))
         runs.append(("gen_4x2", _gen_cfg(rd, "g42.cfg", [42], [0, 1, 2, 3], ALL_TYPES, 2048, s % 2048, 1, 0)))
     return runs
 
@@ -126,7 +126,7 @@ def _run_replay(ctx, rd, lib):
 
     def one(item):
         label, cfg = item
-        r = tlc.run("Preprocess", cfg, workers=2, timeout=1700, coverage=False, xmx="3g")
+        r = tlc.run("Preprocess", cfg, workers=1, timeout=1700, coverage=False, xmx="3g")
         return label, r
     stats = collections.Counter()
     nfail = nruns = 0
@@ -205,6 +205,10 @@ def _run_validate(ctx, rd, lib, only=None):
                               dict(kind="trace", seed=j[1], nmat=j[2], id=last.get("id", 0)))
             elif h.timed_out:
                 raise InfraError("c10_trace timed out")
+            elif h.rc < 0 and ev:
+                # killed by a signal inside a library call (the driver itself is deterministic and only allocates through the library)
+                ctx.violation("PREP:%s:crash" % last.get("type", "?"), "recording driver killed by signal %d after event %s (seed %s): %s" % (-h.rc, last, j[1], h.err[-600:]),
+                              dict(kind="trace", seed=j[1], nmat=j[2], id=last.get("id", 0)))
             else:
                 raise InfraError("c10_trace died rc=%d: %s" % (h.rc, h.err[-800:]))
         if only:
@@ -301,7 +305,7 @@ class _Sub:
 def run(ctx):
     ctx.assumptions += [
         "TLC and its CommunityModules evaluate the rational arithmetic of Rat.tla/Preprocess.tla exactly (32-bit overflow raises an error, never wraps)",
-        "replay scope: integer matrices rows 2..%s x cols 1..2 over -2..3 with <= 1 MISSING cell, 4 affine images (identity, +-1000 offset, x64 with mean moved into [0.0049,0.0059) at unit 2^-10, its negative), 7 options, units 2^0, 2^-4, 2^20 / 2^-10 / 2^-3" % ("4 (seeded residue-class sample)" if ctx.quick else "5 (1-column shapes exhaustive; 3x2 by residue class 1/32, 4x2 by 1/2048)"),
+        "replay scope: integer matrices rows 2..%s x cols 1..2 over -2..3 with <= 1 MISSING cell, 4 affine images (identity, +-1000 offset, x64 with mean moved into [0.0049,0.0059) at unit 2^-10, its negative), 7 options, units 2^0, 2^-4, 2^20 / 2^-10 / 2^-3" % ("4 (seeded residue-class sample)" if ctx.quick else "5 (1-column shapes exhaustive; 3x2 by residue class 1/8, 4x2 by 1/2048)"),
         "comparison in double by the C driver: 1e-9 relative + 1e-13*max|x| cancellation slack; expected zeros must be exactly 0; stored vectors compared through the rational power of the scale",
         "validate scope: matrices 2..60 x 1..20, cells (pivot + d)*2^-e with |d| <= 400, e in {0,4,10}, pivots up to 1e6 real units (|pivot| <= 4000 units for RMS scaling so that TLC squares raw values inside 32 bits), spreads >= 0.02 or 0, means 0 or >= 1e-3, <= 20 % missing; integer projection of the library's doubles is trusted harness code",
         "value left at a MISSING cell of the transformed matrix is not constrained by the property (Impl layer only)",
